@@ -239,7 +239,8 @@ def run_check(pid, tier, seed, workers, only_unit=None, dump_instances=False, ti
         "wall_s": round(time.time() - t0, 2),
         "violations": nviol,
     }
-    evdir = os.path.join(VERIF, "evidence") if os.path.realpath(REPO) == "/repo" else os.path.join(VERIF, ".scratch", "evidence")
+    evdir = (os.path.join(VERIF, "evidence") if os.path.realpath(REPO) == "/repo" and not only_unit
+             else os.path.join(VERIF, ".scratch", "evidence"))  # partial (--unit) and scratch-repo runs are not evidence
     os.makedirs(evdir, exist_ok=True)  # runs against a scratch copy never touch the committed evidence
     evp = os.path.join(evdir, f"{pid}.json")
     try:
